@@ -272,6 +272,7 @@ def main(argv):
             results = {}
             for part in legb.parallel(lambda ch: run_driver(os.path.join(d, 'drv'), ch), [ch for ch in chunks if ch], n=12):
                 results.update(part)
+            stuck_list = []
             for k, ((name, progs, ls), e) in enumerate(zip(scheds, exp)):
                 if e[0] != 1:
                     continue
@@ -287,26 +288,7 @@ def main(argv):
                 ob = parse_replay(line)
                 enc, dels, rets, sel = expected_obs(e, progs)
                 if 'stuck' in ob:
-                    # the compiled shell cannot follow a schedule of the model: a thread blocked where the model lets it run (or ran where
-                    # the model blocks it): the correspondence is broken.  Search for a failing input: replay leniently (unexpected
-                    # Select/Deselect callbacks are let through) and compare the deliveries with the property's demand.
-                    if nv >= 6:
-                        continue
-                    want = holder_expectation(progs, ls)
-                    wantw = [chr(65 + w) if w is not None else '*' for w in want]
-                    l2 = run_driver(os.path.join(d, 'drv'), [(k, progs_word(progs), labels_word(ls))], cmd='L').get(str(k), '')
-                    ob2 = parse_replay(l2) if l2 else {'stuck': 'no output'}
-                    replay['strict_replay'] = line
-                    replay['lenient_replay'] = l2
-                    if 'stuck' in ob2:
-                        violation(f'schedule {name} of the interleaving model cannot be executed by the compiled shell, even when unexpected Select/Deselect '
-                                  f'callbacks are let through: {ob2["stuck"]}: a thread is blocked where the model lets it run (deadlock)', replay, failing=True)
-                    elif missed(ob2['dels'], want) and not missed(dels, want):
-                        violation(f'schedule {name}: the compiled shell leaves the model ({ob["stuck"]}); let run, it delivered the out-events to {ob2["dels"]} where the '
-                                  f'model says {dels} and the property demands {wantw}', replay, failing=True)
-                    else:
-                        violation(f'correspondence legB:Concurrent broken on schedule {name}: {ob["stuck"]} (observed so far: {" ".join(ob["toks"])}); '
-                                  f'let run, it delivered to {ob2["dels"]} (model {dels}, demand {wantw}): no delivery worse than the modelled one on this schedule', replay, failing=False)
+                    stuck_list.append((k, name, progs, ls, line, ob, dels, replay))
                     continue
                 if ob['enc'] != enc or ob['rets'][:len(rets)] != rets:
                     violation(f'schedule {name}: the component saw {ob["enc"]} and the client calls returned {ob["rets"]}; the model says {enc} / {rets}', replay, failing=True)
@@ -326,6 +308,41 @@ def main(argv):
                 if missed(dels, want):
                     for r in classify(progs, ls, dels, want):
                         findings[r] += 1
+            if stuck_list:
+                # the compiled shell cannot follow some schedules of the model (a thread blocked where the model lets it run, or ran
+                # where the model blocks it): the correspondence is broken.  Search for a failing input: replay those schedules
+                # leniently (unexpected Select/Deselect callbacks are let through) and compare the deliveries with the property's demand.
+                todo = stuck_list[:96]
+                chunks2 = [[] for _ in range(12)]
+                for j, (k, name, progs, ls, line, ob, dels, replay) in enumerate(todo):
+                    chunks2[j % 12].append((k, progs_word(progs), labels_word(ls)))
+                len_res = {}
+                for part in legb.parallel(lambda ch: run_driver(os.path.join(d, 'drv'), ch, cmd='L'), [ch for ch in chunks2 if ch], n=12):
+                    len_res.update(part)
+                graded = []
+                for (k, name, progs, ls, line, ob, dels, replay) in todo:
+                    l2 = len_res.get(str(k), '')
+                    ob2 = parse_replay(l2) if l2 and not l2.endswith('SKIPPED') else None
+                    want = holder_expectation(progs, ls)
+                    wantw = [chr(65 + w) if w is not None else '*' for w in want]
+                    replay['strict_replay'] = line
+                    replay['lenient_replay'] = l2
+                    if ob2 is None:
+                        continue
+                    if 'stuck' in ob2:
+                        graded.append((0, f'schedule {name} of the interleaving model cannot be executed by the compiled shell, even when unexpected Select/Deselect '
+                                       f'callbacks are let through: {ob2["stuck"]}: a thread is blocked where the model lets it run (deadlock)', replay, True))
+                    elif missed(ob2['dels'], want) and not missed(dels, want):
+                        graded.append((1, f'schedule {name}: the compiled shell leaves the model ({ob["stuck"]}); let run, it delivered the out-events to {ob2["dels"]} where the '
+                                       f'model says {dels} and the property demands {wantw}', replay, True))
+                    else:
+                        graded.append((2, f'correspondence legB:Concurrent broken on schedule {name}: {ob["stuck"]} (observed so far: {" ".join(ob["toks"])}); '
+                                       f'let run, it delivered to {ob2["dels"]} (model {dels}, demand {wantw}): no delivery worse than the modelled one on this schedule', replay, False))
+                graded.sort(key=lambda g: g[0])
+                failing_ones = [g for g in graded if g[3]]
+                for g in (failing_ones[:3] or graded[:2]):
+                    violation(g[1], g[2], failing=g[3])
+                rep.extra['schedules_the_shell_could_not_follow'] = len(stuck_list)
             # ----- free-running stress under ThreadSanitizer -----
             env = dict(os.environ)
             env['TSAN_OPTIONS'] = 'exitcode=66 halt_on_error=0 report_signal_unsafe=0'
